@@ -87,22 +87,31 @@ func (w *verifFwdRW) WriteMsg(_ context.Context, _, resp *dns.Msg) error {
 //verif:assume clock readings non-decreasing in [2^41, 2^62), backoff in (0, 2^40]; the pick among active upstreams / fallbacks is an explored choice
 func VerifC17Failover() {
 	verifOuts = []int{verifOutOK, verifOutServfail, verifOutNetErr, verifOutOther}
-	verifC17Failover(3)
+	verifC17Failover(3, false)
 }
 
 // VerifC17Failover2 explores every outcome kind over two steps.
 //
 //verif:harness name=H17a-failover2 tier=quick bounds="as H17a-failover with 2 steps and every exchange outcome from {NOERROR, SERVFAIL, net.Error, io.EOF, other error, nil response}" reach=done,failover,servfail-path,no-fallbacks maxpaths=400000
 //verif:assume clock readings non-decreasing in [2^41, 2^62), backoff in (0, 2^40]; the pick among active upstreams / fallbacks is an explored choice
-func VerifC17Failover2() { verifC17Failover(2) }
+func VerifC17Failover2() { verifC17Failover(2, false) }
+
+// VerifC17Init: the start-up probe of NewHandler followed by two steps.
+//
+//verif:harness name=H17c-init tier=quick bounds="as H17a-failover2 but starting with the start-up probe (refresh(ctx, true) as called by NewHandler when an initial health-check duration is configured), then 2 steps" reach=done,init-probe,no-fallbacks,failover maxpaths=400000
+//verif:assume clock readings non-decreasing in [2^41, 2^62), backoff in (0, 2^40]; the pick among active upstreams / fallbacks is an explored choice; NewHandler's own construction code (sockets) is replaced by a literal handler with stub upstreams
+func VerifC17Init() {
+	verifOuts = []int{verifOutOK, verifOutServfail, verifOutNetErr, verifOutOther}
+	verifC17Failover(2, true)
+}
 
 // VerifC17Failover5 is the thorough variant.
 //
-//verif:harness name=H17a-failover5 tier=thorough bounds="as H17a-failover2 with 4 steps" reach=done,backoff-skip,failover,servfail-path,recovered,no-fallbacks maxpaths=8000000
+//verif:harness name=H17a-failover5 tier=thorough bounds="as H17a-failover2 with 4 steps, with or without the start-up probe"  reach=done,backoff-skip,failover,servfail-path,recovered,no-fallbacks maxpaths=8000000
 //verif:assume clock readings non-decreasing in [2^41, 2^62), backoff in (0, 2^40]; the pick among active upstreams / fallbacks is an explored choice
-func VerifC17Failover5() { verifC17Failover(4) }
+func VerifC17Failover5() { verifC17Failover(4, verifChoice(2) == 1) }
 
-func verifC17Failover(steps int) {
+func verifC17Failover(steps int, initProbe bool) {
 	mains := []*verifUps{{name: "m0"}, {name: "m1"}}
 	var fbs []*verifUps
 	if verifChoice(2) == 1 {
@@ -132,6 +141,27 @@ func verifC17Failover(steps int) {
 	active := [2]bool{true, true}
 	now := int64(1) << 41
 	ctx := context.Background()
+
+	if initProbe {
+		// the start-up probe: NewHandler calls refresh(ctx, true) when an initial
+		// health-check duration is configured
+		verifSetClock(now)
+		before := [2]int{mains[0].calls, mains[1].calls}
+		_ = h.refresh(ctx, true)
+		if len(fbs) == 0 {
+			verifAssert("without-fallbacks-no-probes", mains[0].calls == before[0] && mains[1].calls == before[1])
+			verifAssert("without-fallbacks-never-out-of-rotation", len(h.activeUpstreams) == 2)
+		} else {
+			for i, m := range mains {
+				verifAssert("due-upstream-probed-once", m.calls-before[i] == 1)
+				if m.lastOut != verifOutOK {
+					lastFailed[i] = now
+					active[i] = false
+				}
+			}
+		}
+		verifReach("init-probe")
+	}
 
 	for s := 0; s < steps; s++ {
 		t := nondetI64()
